@@ -473,10 +473,21 @@ func (e *Exec) applyContract(callee *FuncInfo, call *ast.CallExpr, st *State, ct
 		mk = append(mk, k)
 	}
 	sort.Strings(mk)
+	calleeOwnW := e.w.ownWrites(callee)
+	var frameFacts []string
 	for _, k := range mk {
 		e.heapArr(st, k, mods[k])
 		heapBefore[k] = st.heap[k]
 		st.heap[k] = e.fresh(st, "H_"+sanitize(k), "(Array Int "+sortOf(mods[k])+")")
+		if len(calleeOwnW[k]) == 0 {
+			// the ownership/frame pass shows that the callee writes this field only on objects it allocates itself:
+			// every object that existed before the call keeps it
+			frameFacts = append(frameFacts, "(forall ((r Int)) (! (=> (< r "+st.top+") (= (select "+st.heap[k]+" r) (select "+heapBefore[k]+" r))) :pattern ((select "+st.heap[k]+" r))))")
+			e.note("frame facts from the ownership pass: a callee that writes a field only on objects it allocates leaves that field of all existing objects unchanged")
+		}
+	}
+	for _, f := range frameFacts {
+		st.assume(f)
 	}
 	// the callee may allocate: the boundary moves up by an unknown amount
 	topBefore := st.top
